@@ -50,12 +50,14 @@ theorem T_C08 (v : Variant) (attr : Toks) (item : Item) (out : Out)
     simp only [expand] at h
     split at h
     · simp at h
-    · obtain ⟨items, a, fns, tg, depMode, implBlock, h0, h1, h2, _, h4, rfl⟩ := expandMod_ok h
+    · obtain ⟨items, a, fns0, fns, tg, depMode, implBlock, h0, h1, h2, hfns, _, h4, rfl⟩ := expandMod_ok h
+      subst hfns
       have him := genImplBlock_ok h4
-      have hz := analyzeFns_zip .selfRef (v.apply a.opts) (fun s tf => decide (tf.sig.ident = s.ident))
-        ((items.filterMap BodyItem.fn?).map (·.sig)) {} tg fns
+      have hz := analyzeFns_zip_cfg .selfRef (v.apply a.opts) (fun s tf => decide (tf.sig.ident = s.ident)) (fun _ _ _ => rfl)
+        ((items.filterMap BodyItem.fn?).map (·.sig)) {} tg fns0 (bodyFnAttrs items)
         (fun s _ tg0 tf tg1 han => by simpa using (fnModeSpec han).ident) h2
       have hid := idents_of_zip _ _ hz
+      generalize attachCfg (bodyFnAttrs items) fns0 = fns at *
       have hn1 : methodNames (genTraitDef (v.apply a.opts) .plain depMode m.attrs a.traitVis a.traitIdent tg {} fns .module).members
           = fns.map (·.sig.ident) := by
         simp only [genTraitDef]
